@@ -86,7 +86,7 @@ def replay(ctx, recs, stats):
 
 
 # ---------------------------------------------------------------------------- C2S
-KEYS = (["ka"], ["kb"], ["kc"], ["kd", "ke"])
+KEYS = (["ka"], ["kb"], ["kc"], ["kd", "ke"], ["kd", "kf"])
 
 
 def _lit(ch):
@@ -121,10 +121,10 @@ CONSUMERS = [
 ]
 
 
-def random_leaf(rnd):
+def random_leaf(rnd, keys=KEYS):
     r = rnd.random()
     if r < 0.30:
-        p = rnd.choice(KEYS)
+        p = rnd.choice(keys)
         if rnd.random() < 0.12:
             return {"k": "set", "p": ["ka"], "v": {"t": "str", "toks": [_lit("1")]}, "ch": []}
         return {"k": "set", "p": list(p), "v": {"t": "int", "toks": [_lit(rnd.choice("12"))]}, "ch": []}
@@ -144,6 +144,8 @@ def random_leaf(rnd):
 def random_tree(rnd, max_tok, max_depth=3):
     els = []
     budget = [rnd.randint(3, max_tok)]
+    # few keys per tree, so that branches of a Split often set the same key
+    keys = rnd.sample(KEYS, rnd.choice([2, 3, 5]))
 
     def add(e):
         els.append(e)
@@ -172,10 +174,40 @@ def random_tree(rnd, max_tok, max_depth=3):
                 if r < 0.28 and depth < max_depth:
                     ch.append(node(rnd.choice(["seq", "split", "split"]), depth + 1))
                 else:
-                    ch.append(add(random_leaf(rnd)))
+                    ch.append(add(random_leaf(rnd, keys)))
         return add({"k": kind, "p": [], "v": NOTPL, "ch": ch})
 
     node(rnd.choice(["seq", "seq", "src", "src", "split"]), 1)
+    return els
+
+
+def split_tree(rnd):
+    """Seq/Src(sets, Split[branch, branch(, Sum)], consumers): branches that agree on some keys
+    and disagree on others, over few keys (exercises the recursive intersection)."""
+    els = []
+    keys = rnd.sample(KEYS, 2) if rnd.random() < 0.5 else [["kd", "ke"], ["kd", "kf"]]
+
+    def add(e):
+        els.append(e)
+        return len(els)
+
+    def aset():
+        return add({"k": "set", "p": list(rnd.choice(keys)),
+                    "v": {"t": "int", "toks": [_lit(rnd.choice("12"))]}, "ch": []})
+
+    top = [aset() for _ in range(rnd.randint(0, 2))]
+    brs = []
+    for _ in range(rnd.randint(2, 3)):
+        ch = [aset() for _ in range(rnd.randint(0, 2))]
+        if rnd.random() < 0.4:
+            ch.insert(rnd.randint(0, len(ch)), add({"k": "store", "p": [], "v": NOTPL, "ch": []}))
+        brs.append(add({"k": rnd.choice(["seq", "seq", "src"]), "p": [], "v": NOTPL, "ch": ch}))
+    if rnd.random() < 0.25:
+        brs.append(add({"k": "acc", "p": [], "v": NOTPL, "ch": []}))
+    top.append(add({"k": "split", "p": [], "v": NOTPL, "ch": brs}))
+    for _ in range(rnd.randint(0, 2)):
+        top.append(add(random_leaf(rnd, keys)))
+    add({"k": rnd.choice(["seq", "src"]), "p": [], "v": NOTPL, "ch": top})
     return els
 
 
@@ -183,7 +215,7 @@ def c2s(ctx, n, max_tok, stats):
     rnd = random.Random(ctx.seed * 7919 + 13)
     trace = []
     for j in range(n):
-        els = random_tree(rnd, max_tok)
+        els = split_tree(rnd) if j % 3 == 2 else random_tree(rnd, max_tok)
         tuples = bool(rnd.getrandbits(1))
         try:
             objs = sl.build(els, tuples)
@@ -274,10 +306,12 @@ def run(ctx):
              "other_key_named": 0, "c2s_rejected": 0, "c2s_unvalidated": 0}
     # ---- design level
     cfgs = ["StaticContext_%s_a.cfg" % tag, "StaticContext_%s_b.cfg" % tag]
+    if ctx.thorough:
+        cfgs.append("StaticContext_thorough_c.cfg")      # nested keys, 7 tokens
     for j, cfg in enumerate(cfgs):
         ctx.mc("StaticContext", cfg, coverage=(j == 0), must_cover=ACTIONS if j == 0 else ())
     if ctx.thorough:
-        ctx.mc("StaticContext", "StaticContext_sim.cfg", simulate=40000, depth=20)
+        ctx.mc("StaticContext", "StaticContext_sim.cfg", simulate=5000, depth=24)
     demo_defect_models(ctx)
     # ---- spec -> code
     cwd = os.getcwd()
